@@ -473,6 +473,9 @@ where
             // build separate set of condition blocks and body blocks so the compiler can
             // easily detect multiple branches
             let left = walk_rvalue(ctx, locals, x.value, source, visitor, diagnostics)?;
+            // case clauses share one scope, which is nested in the outer one
+            let mut locals = locals.clone();
+            let locals = &mut locals;
             let case_conditions: Vec<_> = x
                 .cases
                 .iter()
